@@ -33,9 +33,12 @@ RULE = ("one execution = [pollution prefix Q;] seed(s); program P on fresh fixtu
         "length 2 for 2 seeds (1 and 2^32-1); each program compared with its reference under every pollution prefix "
         "(length <= 2: every core call + 12 direct manipulations of the two streams; length 3: the program's own "
         "calls + the 12; all-calls family: 4 representative calls + own + the 12), in a second identical run, live from "
-        "the restored parent state, with the objects built before seeding, and under 2 further entropy / 1 further "
+        "the restored parent state, with the objects built before seeding, on copies of those objects taken before "
+        "seeding (copy.copy for every object, plus every copy operation the class itself defines: __deepcopy__, "
+        "copy(), deepcopy()), and under 2 further entropy / 1 further "
         "clock variants when entropy / the clock was requested; isolation: each discovered rng-accepting component x "
-        "{Generator, RandomState} x global states; non-trivial = every call of the program advanced a global stream / "
+        "{Generator, RandomState} x global states, and for object-based components each copy kind (copy alone; "
+        "original and copy interleaved on the one generator); non-trivial = every call of the program advanced a global stream / "
         "the component drew from the explicit generator; distinct by digest of (seed, program)")
 ASSUME = ["numpy's and python's generators are deterministic functions of their state (trusted base)",
           "all fresh entropy reaches python through os.urandom / random._urandom / random.seed(None) / "
@@ -124,7 +127,16 @@ def execute(prog, s, v, Q=None, mode="fresh", entropy=0, clock=0, start=None):
                 dict(S.direct_pollutions(s))[Q]()
         ex.pre_seed = E.pair_parts(E.get_pair())
         fx = S.Fx(v)
-        objs = [c.make(fx) if (mode == "persistent" and c.persistent) else None for c in calls]
+        if mode.startswith("copy:"):
+            # the object is built before seeding and the program then runs on a COPY of it taken before seeding
+            objs = []
+            for c in calls:
+                o = c.make(fx) if c.persistent else None
+                if o is not None and mode[5:] in S.copy_kinds(o):
+                    o = S.do_copy(o, mode[5:])
+                objs.append(o)
+        else:
+            objs = [c.make(fx) if (mode == "persistent" and c.persistent) else None for c in calls]
         env.start_recording()
         if start is None:
             prng.seed(s)
@@ -246,6 +258,22 @@ def check_node(ctx, s, prog, v, ext=False, parent=None):
         ctx.count("persistent-mode")
         agree("persistent", persistent, "persistent")
 
+    # (4b) copies of the stochastic objects, taken before the re-seeding -----------------------------------------
+    kinds = []
+    for c in calls:
+        for kd in letter_copy_kinds(c.name, v):
+            if kd not in kinds:
+                kinds.append(kd)
+    for kd in kinds:
+        def copied(kd=kd):
+            r = execute(prog, s, v, Q=q_names(s, prog, ext)[0], mode="copy:" + kd)
+            _compare(ref, r, calls, f"the program ran on {kd} copies (taken before seed()) of its protocol objects", None,
+                     kind="copy-taken-before-seeding-differs:" + kd)
+        ctx.evaluations += 1
+        ctx.transitions += len(prog) + 1
+        ctx.count("copy-mode:" + kd)
+        agree("copy:" + kd, copied, "copy:" + kd)
+
     # (5) entropy variants ----------------------------------------------------------------------------------
     if ref.records:
         ctx.count("programs-requesting-os-entropy")
@@ -298,12 +326,27 @@ def check_node(ctx, s, prog, v, ext=False, parent=None):
     return ref
 
 
+_LETTER_KINDS = {}
+
+
+def letter_copy_kinds(name, v):
+    """Copy operations to be exercised for the object behind one letter (none for letters without an object)."""
+    if name not in _LETTER_KINDS:
+        c = S.call_by_name(name)
+        kinds = []
+        if c.persistent:
+            with E.ENV.run():
+                kinds = S.copy_kinds(c.make(S.Fx(v)))
+        _LETTER_KINDS[name] = kinds
+    return _LETTER_KINDS[name]
+
+
 def _compare(ref, r, calls, what, q, kind=None):
     if r.after_seed != ref.after_seed:
         which = "python" if r.after_seed[0] != ref.after_seed[0] else "numpy"
         raise Violation(f"prng.seed:state-after-seeding-depends-on-history:{which}",
                         f"the {which} stream's state right after seed() differs after {what}")
-    if kind == "object-built-before-seeding-differs":
+    if kind is not None and (kind == "object-built-before-seeding-differs" or kind.startswith("copy-taken")):
         kd = _first_diff(list(zip(ref.outs, ref.states)), list(zip(r.outs, r.states)))
         if kd is not None and not calls[kd].persistent:
             kind = None
@@ -493,7 +536,73 @@ def check_iso(ctx, fullname, v, tier):
                     ctx.traces += 1
             ok = ctx.guard(body, case=case, sig_prefix=f"{site}:explicit-rng:{kind}:")
             ctx.count(f"iso-runs:{kind}")
+            if hasattr(fn, "build") and gseed == gseeds[0]:
+                ctx.guard(lambda: iso_copies(ctx, fullname, short, site, fn, v, Gs[0], kind, gseed, case),
+                          case=case, sig_prefix=f"{site}:explicit-rng:{kind}:copy:")
     ctx.flag("iso:" + short)
+
+
+def iso_copies(ctx, fullname, short, site, fn, v, G, kind, gseed, case):
+    """Copies of a component built with the caller's generator must keep drawing from that SAME generator object:
+    (C) calling only the copy gives the result, and leaves the caller's generator in the state, of calling the original;
+    (B) original and copy interleave on one stream: call(original); call(copy) equals the reference sequence
+        call(original); call(second object built on the same generator)  (only where building draws nothing)."""
+    import copy as _copy
+
+    def run(plan):
+        with E.ENV.run() as env:
+            fx = S.Fx(v)
+            E.set_pair(G)
+            rng = _mk_gen(kind, gseed)
+            g0 = E.gen_state(rng)
+            o = fn.build(fx, rng)
+            build_draws = E.gen_state(rng) != g0
+            before = E.pair_parts(E.get_pair())
+            outs = plan(fx, rng, o)
+            moved = E.pair_parts(E.get_pair()) != before
+            return [E.dig(E.ser(x)) for x in outs], E.dig(E.gen_state(rng)), build_draws, moved, o
+
+    def guarded(plan):
+        try:
+            return run(plan)
+        except Exception as e:
+            return [("raised", type(e).__name__)], None, False, False, None
+
+    ref1 = guarded(lambda fx, rng, o: [fn.call(fx, o)])
+    if ref1[1] is None:
+        return                                   # the plain call raises here: nothing to compare (flagged elsewhere)
+    kinds = S.copy_kinds(ref1[4])
+    # informational: python's default deepcopy of a class without its own __deepcopy__
+    if "copy.deepcopy" not in kinds:
+        try:
+            c = _copy.deepcopy(ref1[4])
+            if getattr(c, "rng", None) is not getattr(ref1[4], "rng", None):
+                ctx.flag(f"copy-unspecified:{short}:generic copy.deepcopy clones the generator (no library __deepcopy__)")
+        except Exception:
+            pass
+    ref2 = None
+    if not ref1[2]:
+        ref2 = guarded(lambda fx, rng, o: [fn.call(fx, o), fn.call(fx, fn.build(fx, rng))])
+    for kd in kinds:
+        ctx.flag("iso-copy:" + kd)
+        ctx.count("iso-copy-runs")
+        ctx.evaluations += 1
+        ctx.transitions += 1
+        rc = guarded(lambda fx, rng, o: [fn.call(fx, S.do_copy(o, kd))])
+        bad = rc[0] != ref1[0] or rc[1] != ref1[1]
+        why = "calling only the copy does not give the original's result / does not advance the caller's generator as the original would"
+        if not bad and ref2 is not None and ref2[1] is not None:
+            ctx.evaluations += 1
+            ctx.transitions += 2
+            rb = guarded(lambda fx, rng, o: (lambda c: [fn.call(fx, o), fn.call(fx, c)])(S.do_copy(o, kd)))
+            if rb[0] != ref2[0] or rb[1] != ref2[1]:
+                bad = True
+                why = "original and copy do not interleave on one stream (call(original); call(copy) differs from the reference sequence)"
+        if bad:
+            ctx.violation(f"{site}:explicit-rng:copy-does-not-share-generator:{kd}",
+                          f"{fullname} built with the caller's own {kind} and copied with {kd}: {why}", case)
+        else:
+            ctx.traces += 1
 
 
 _DISC = None
@@ -665,6 +774,9 @@ def finalize(ctx, tier, seed):
         nx = len(all_names()) ** 2 - len(core_names()) ** 2
         assert ctx.counters.get("program-len-2", 0) >= N_SEEDS * len(core_names()) ** 2 + len(EXT_L2_SEEDS) * nx
     assert ctx.counters.get("persistent-mode", 0) > 0
+    for kd in S.COPY_KINDS:
+        assert ctx.counters.get("copy-mode:" + kd, 0) > 0, f"copy kind {kd} never exercised in a program"
+        assert "iso-copy:" + kd in ctx.flags, f"copy kind {kd} never exercised with an explicit generator"
     assert "tripwire-selftest" in ctx.flags and "blame-selftest" in ctx.flags
     assert len(ctx.outcomes) > 100, len(ctx.outcomes)
     names, bad = _discovered()
